@@ -179,6 +179,15 @@ def correspond(ctx, scale):
                             all_ix = torch.arange(min(q.codebook_size, 4096))
                             rt_ac = q.codes_to_indices(q.indices_to_codes(all_ix)) if ncb == 1 else all_ix
                         dist['fsq_autocast'] = dist.get('fsq_autocast', 0) + 1
+                        if train:
+                            # noise dropout is 0: no random draw may matter, not even an extreme one (every uniform exactly 0 / just below 1)
+                            from vlib import callzoo
+                            for amode in ('zeros', 'max'):
+                                with callzoo.adversarial_rng(torch, amode):
+                                    out_ad, idx_ad = q(z)
+                                if not (torch.equal(idx_ad, idx) and torch.equal(out_ad, out)):
+                                    raise AssertionError(f'training-mode output depends on the random draws although noise_dropout = 0 (all uniforms at {amode}: {int((idx_ad != idx).sum())} indices differ)')
+                            dist['fsq_adversarial_rng'] = dist.get('fsq_adversarial_rng', 0) + 1
                         if not torch.equal(idx_ac, idx):
                             raise AssertionError(f'under torch.autocast(cpu, bfloat16) {int((idx_ac != idx).sum())} of {idx.numel()} indices differ from the plain float32 call')
                         if not torch.equal(rt_ac.reshape(-1), all_ix.to(rt_ac.dtype)):
